@@ -1,249 +1,314 @@
-"""Hunt for pre-existing violations of C04 on the unmodified tree.
+"""Hunt for NEW violations of C04 on the unmodified library (third round).
 
-C04: for every final release v and every &,|,~ expression over PEP 440 specifier
-strings, `v in result` / result.contains(v) equals the same Boolean combination of
-packaging's SpecifierSet(leaf).contains(v) over the leaves.
+Run as:  cd /tmp/wt/C04i && PYTHONPATH=/tmp/wt/C04i/src /venv/bin/python hunt_C04.py [random_cases]
 
-Run:  cd /tmp/wt/C04h && PYTHONPATH=/tmp/wt/C04h/src /venv/bin/python hunt_C04.py [quick|full]
-
-Streams (all judged against packaging, leaf by leaf):
-  S1  random expression trees (depth <= 4) over comma-joined leaves with epochs,
-      1-5 release segments, trailing zeros, multi-digit segments, pre/post/dev bounds,
-      `v` prefixes and odd spellings; candidates are final releases next to every bound.
-  S2  unusual-but-legal spellings (leading zeros, -/_ separators, upper case, implicit
-      post `1.0-1`, `1.0.r3`, `c1`, `preview`, huge integers, 7 segments, wildcards of
-      several depths with epochs) as leaves, under ~, ~~ and pairwise &, |, ~(a|b), ~a&b.
-  S3  exhaustive three-operand combinations, both associativities, all operand orders,
-      over a small leaf universe (includes equal bounds with different inclusivity,
-      1.0 vs 1 vs 1.0.0, epoch 1!, wildcards 1.* 1.0.* 1!1.*).
-  S4  result -> str -> parse round trip keeps membership (rendering feeds contains()).
-Known families are filtered: an exclusive post-release upper bound (family 3), `===`
-(family 4), +local (5); candidates are final releases only (families 6 and 10 moot).
+Oracle: packaging's SpecifierSet(leaf).contains(v) on the leaves, combined with the same
+Boolean operations.  Candidates are final releases only.  Findings that belong to a known
+family are counted separately and not reported:
+  (3) an exclusive upper bound that is a post-release, rendered `~=`  (detected structurally:
+      some range of the result has include_max False and max.is_postrelease)
+  (6) ranges that only hold pre-releases / bounds at 0.dev0 - these never disagree on finals.
 """
+
 from __future__ import annotations
 
 import itertools
 import random
+import re
 import sys
 
 from packaging.specifiers import SpecifierSet
 from packaging.version import Version
 
-from dep_logic.specifiers import parse_version_specifier as P
-from dep_logic.specifiers.range import RangeSpecifier
-from dep_logic.specifiers.union import UnionSpecifier
+from dep_logic.specifiers import (
+    AnySpecifier,
+    EmptySpecifier,
+    RangeSpecifier,
+    UnionSpecifier,
+    from_specifierset,
+    parse_version_specifier,
+)
 
-FOUND: list[str] = []
+NEW: list[str] = []
+KNOWN = 0
+CASES = 0
 CHECKS = 0
 
 
-def report(msg: str) -> None:
-    FOUND.append(msg)
-    print("NEW VIOLATION:", msg)
+def ranges_of(r):
+    if isinstance(r, RangeSpecifier):
+        return [r]
+    if isinstance(r, UnionSpecifier):
+        return list(r.ranges)
+    return []
 
 
-def known(result) -> bool:
-    rs = []
-    if isinstance(result, RangeSpecifier):
-        rs = [result]
-    elif isinstance(result, UnionSpecifier):
-        rs = list(result.ranges)
+def known_family(r) -> bool:
     return any(
-        r.max is not None and r.max.is_postrelease and not r.include_max for r in rs
+        x.max is not None and not x.include_max and x.max.is_postrelease
+        for x in ranges_of(r)
     )
 
 
 # ---------------------------------------------------------------- expression trees
-def leaves(t):
-    return [t[1]] if t[0] == "leaf" else [x for c in t[1:] for x in leaves(c)]
-
-
-def build(t):
-    if t[0] == "leaf":
-        return P(t[1])
-    if t[0] == "not":
-        return ~build(t[1])
-    a, b = build(t[1]), build(t[2])
-    return a & b if t[0] == "and" else a | b
+def build(t, how=0):
+    k = t[0]
+    if k == "leaf":
+        if how == 0:
+            return parse_version_specifier(t[1])
+        return from_specifierset(SpecifierSet(t[1]))
+    if k == "not":
+        return ~build(t[1], how)
+    a, b = build(t[1], how), build(t[2], how)
+    return a & b if k == "and" else a | b
 
 
 def oracle(t, v):
-    if t[0] == "leaf":
-        return SpecifierSet(t[1]).contains(v, prereleases=True)
-    if t[0] == "not":
+    k = t[0]
+    if k == "leaf":
+        return SpecifierSet(t[1]).contains(v)
+    if k == "not":
         return not oracle(t[1], v)
     a, b = oracle(t[1], v), oracle(t[2], v)
-    return (a and b) if t[0] == "and" else (a or b)
+    return (a and b) if k == "and" else (a or b)
 
 
 def show(t):
     if t[0] == "leaf":
-        return f"P({t[1]!r})"
+        return repr(t[1])
     if t[0] == "not":
         return f"~{show(t[1])}"
     return f"({show(t[1])} {'&' if t[0] == 'and' else '|'} {show(t[2])})"
 
 
-def candidates(t):
-    out = set()
-    for ls in leaves(t):
-        for s in SpecifierSet(ls):
-            txt = s.version[:-2] if s.version.endswith(".*") else s.version
-            v = Version(txt)
-            rel = list(v.release)
-            for e in {v.epoch, 0}:
-                pre = f"{e}!" if e else ""
-                rels = [rel, rel + [0], rel + [1], rel[:-1] or [0], rel[:-1] + [rel[-1] + 1]]
-                if rel[-1] > 0:
-                    rels += [rel[:-1] + [rel[-1] - 1], rel[:-1] + [rel[-1] - 1, 99]]
-                if len(rel) > 1:
-                    rels += [rel[:-2] + [rel[-2] + 1], rel[:-2] + [rel[-2] + 1, 0]]
-                    if rel[-2] > 0:
-                        rels.append(rel[:-2] + [rel[-2] - 1, 99])
-                if len(rel) > 2:
-                    rels.append(rel[:-3] + [rel[-3] + 1])
-                out.update(pre + ".".join(map(str, r)) for r in rels)
-    out.update(["0", "0.0.1", "1", "100", "1!0", "3!0"])
+def leaves(t):
+    if t[0] == "leaf":
+        return [t[1]]
+    return [x for c in t[1:] for x in leaves(c)]
+
+
+_num = re.compile(r"(\d+(?:\.\d+)*)")
+
+
+def candidates(t) -> list[str]:
+    out = {"0", "1", "0.0.1", "99"}
+    for leaf in leaves(t):
+        for part in leaf.split(","):
+            m = _num.search(part.split("!")[-1])
+            if not m:
+                continue
+            r = [int(x) for x in m.group(1).split(".")]
+            for k in range(1, len(r) + 1):
+                base = r[:k]
+                for d in (-1, 0, 1):
+                    if base[-1] + d < 0:
+                        continue
+                    b = base[:-1] + [base[-1] + d]
+                    for tail in ([], [0], [1], [0, 1], [0, 0, 0, 1]):
+                        out.add(".".join(map(str, b + tail)))
     return sorted(out)
 
 
-def check_tree(t, cands=None, roundtrip=False) -> None:
-    global CHECKS
-    try:
-        res = build(t)
-    except Exception as e:  # any exception is a violation: no === leaves here
-        report(f"{show(t)} raises {type(e).__name__}: {e}")
-        return
-    if known(res):
-        return
-    r2 = None
-    if roundtrip:
+def check_tree(t, label="") -> None:
+    global CASES, CHECKS, KNOWN
+    CASES += 1
+    for how in (0, 1):
         try:
-            r2 = P(str(res))
-        except Exception as e:
-            report(f"str({show(t)}) = {str(res)!r} does not re-parse: {type(e).__name__}: {e}")
-    for v in cands or candidates(t):
-        CHECKS += 1
-        exp = oracle(t, v)
-        try:
-            got = (res.contains(v), v in res, Version(v) in res)
-        except Exception as e:
-            report(f"{show(t)}: contains({v!r}) raises {type(e).__name__}: {e}")
+            r = build(t, how)
+        except Exception as e:  # noqa: BLE001
+            NEW.append(f"{label}{show(t)}: building raised {type(e).__name__}: {e}")
             return
-        if got != (exp, exp, exp):
-            report(f"{show(t)}: v={v} library={got} packaging={exp} result={res!r}")
-            return
-        if r2 is not None and r2.contains(v) != exp:
-            report(f"{show(t)}: v={v} re-parsed {str(res)!r} gives {r2.contains(v)}, packaging={exp}")
-            return
-
-
-# ---------------------------------------------------------------- S1 random trees
-OPS = [">", ">=", "<", "<=", "==", "!=", "~=", "==*", "!=*"]
-SUFFIXES = ["a1", "b2", "rc1", ".post1", ".post0", ".dev1", ".dev0", "a1.dev1",
-            ".post1.dev1", "rc1.post1", "a0", "-1", ".r1", "c1", ".pre1", "ALPHA1", "_beta_2"]
-
-
-def rand_leaf(rng):
-    op = rng.choice(OPS)
-    ep = rng.choice(["1!", "0!", "2!"]) if rng.random() < 0.15 else ""
-    pre = "v" if rng.random() < 0.05 else ""
-    n = rng.choice([2, 2, 3, 3, 4, 5] if op == "~=" else [1, 2, 2, 3, 3, 4, 5])
-    rel = [rng.choice([0, 0, 1, 1, 2, 3, 9, 10]) for _ in range(n)]
-    if rng.random() < 0.3:
-        rel[-1] = 0
-    body = ".".join(map(str, rel))
-    if op in ("==*", "!=*"):
-        return f"{op[:2]}{pre}{ep}{body}.*"
-    suf = rng.choice(SUFFIXES) if rng.random() < 0.4 else ""
-    return f"{op}{' ' if rng.random() < 0.1 else ''}{pre}{ep}{body}{suf}"
-
-
-def rand_tree(rng, depth):
-    if depth == 0 or rng.random() < 0.25:
-        return ("leaf", ",".join(rand_leaf(rng) for _ in range(rng.choice([1, 1, 1, 2, 2, 3]))))
-    r = rng.random()
-    if r < 0.2:
-        return ("not", rand_tree(rng, depth - 1))
-    return ("and" if r < 0.6 else "or", rand_tree(rng, depth - 1), rand_tree(rng, depth - 1))
-
-
-def stream1(n, seed=2024, roundtrip=False):
-    rng = random.Random(seed)
-    for _ in range(n):
-        check_tree(rand_tree(rng, rng.choice([1, 2, 2, 3, 4])), roundtrip=roundtrip)
-
-
-# ---------------------------------------------------------------- S2 odd spellings
-ODD = ["01.0", "1.00", "001", "1.0-1", "1.0_post_1", "1.0.POST.1", "1.0-rc-1", "1.0RC1", "V1.0",
-       "v1.0.0", "1.0.preview1", "1.0c1", "1.0.rev2", "1.0.r3", "1!01.0", "00!1.0", "0!1", "1.0a",
-       "1.0.post", "1.0.dev", "1.0alpha", "1.0-beta.2", "1.0a1.post2.dev3", "1.2.3.4.5.6.7",
-       "0.0.0", "0", "00", "1.0.0.0.0", "4294967296.0", "1.18446744073709551616"]
-ODDW = ["01.*", "1.00.*", "V1.*", "v1.0.*", "1!01.*", "0!1.*", "0.*", "0.0.*", "00.*",
-        "1.2.3.4.5.6.*", "4294967296.*"]
-ODDC = ["0", "0.0.1", "0.9", "1", "1.0", "1.0.0", "1.0.1", "1.1", "2", "1.2.3.4.5.6",
-        "1.2.3.4.5.6.0", "1.2.3.4.5.6.1", "1.2.3.4.5.7", "1.2.3.4.6", "1!0", "1!1", "1!1.0.1", "1!2",
-        "4294967296", "4294967296.0", "4294967297", "4294967295.9", "1.18446744073709551616",
-        "1.18446744073709551617", "1.18446744073709551615", "1.9", "0.1", "1.2.3.4.5.6.7",
-        "1.2.3.4.5.6.8", "1.2.3.4.5.6.6.9"]
-
-
-def stream2(npairs):
-    ls = []
-    for op in [">", ">=", "<", "<=", "==", "!=", "~="]:
-        for v in ODD:
+        for v in candidates(t):
+            exp = oracle(t, v)
+            CHECKS += 1
             try:
-                SpecifierSet(op + v)
-            except Exception:
-                continue
+                got = (v in r, r.contains(v), r.contains(Version(v)), r.contains(v, True), r.contains(v, False))
+            except Exception as e:  # noqa: BLE001
+                NEW.append(f"{label}{show(t)}: {v} in {r!r} raised {type(e).__name__}: {e}")
+                return
+            if set(got) != {exp}:
+                if known_family(r):
+                    KNOWN += 1
+                else:
+                    NEW.append(f"{label}{show(t)}: version {v}: library {got} on {r!r}, packaging {exp}")
+                return
+            if r.is_empty() and got[0]:
+                NEW.append(f"{label}{show(t)}: is_empty() but contains {v}")
+            if r.is_any() and not got[0]:
+                NEW.append(f"{label}{show(t)}: is_any() but lacks {v}")
+        # rendering and re-parsing keeps the membership (only as a way to reach other objects)
+        try:
+            again = parse_version_specifier(str(r))
+        except Exception as e:  # noqa: BLE001
+            NEW.append(f"{label}{show(t)}: str(result)={str(r)!r} does not re-parse: {type(e).__name__}: {e}")
+            return
+        for v in candidates(t)[::3]:
+            if (v in again) != (v in r) and not known_family(r) and not known_family(again):
+                NEW.append(f"{label}{show(t)}: re-parsed {str(r)!r} differs on {v}")
+                return
+
+
+# ---------------------------------------------------------------- 1. systematic small scope
+def systematic() -> None:
+    versions = ["0", "1", "1.0", "1.0.0", "1.1", "1.0.1", "1.1.0", "2", "2.0", "1.9", "1.10", "1.0.0.0", "1.0.0.1", "1.1.0.0"]
+    ls: list[str] = []
+    for v in versions:
+        for op in (">", ">=", "<", "<=", "==", "!="):
             ls.append(op + v)
-    ls += [op + w for w in ODDW for op in ("==", "!=")]
-    for s in ls:
-        L = ("leaf", s)
-        for t in (L, ("not", L), ("not", ("not", L))):
-            check_tree(t, ODDC)
-    rng = random.Random(5)
-    for _ in range(npairs):
-        a, b = ("leaf", rng.choice(ls)), ("leaf", rng.choice(ls))
-        for t in (("and", a, b), ("or", a, b), ("not", ("or", a, b)), ("and", ("not", a), b)):
-            check_tree(t, ODDC)
+        ls.append(f"=={v}.*")
+        ls.append(f"!={v}.*")
+        if "." in v:
+            ls.append(f"~={v}")
+    # pre/post/dev bounds in the places where they are not a known family
+    ls += [">=1.0a1", ">1.0a1", ">=1.0.post1", ">1.0.post1", "<=1.0.post1", ">=1.0.dev1", "<1.1rc1", "<=1.1rc1", "~=1.0.post2", "~=1.1a1", "~=1.0.0.dev3", "==1.0.post1", "!=1.0a1"]
+    # odd but legal spellings
+    ls += [">= v1.0", "==V1.0.*", "~= 1.0.0", "!=01.1", ">=1.0-1", "~=1.0-1", "==1.0_post1", ">=1.0.ALPHA.1", "<=1.0.0.0.0", "~=1.0.0.0.1", "==1.0.0.0.*"]
+    pairs = list(itertools.product(ls, repeat=2))
+    rnd = random.Random(7)
+    rnd.shuffle(pairs)
+    for a, b in pairs[:6000]:
+        la, lb = ("leaf", a), ("leaf", b)
+        check_tree(("and", la, lb))
+        check_tree(("or", la, ("not", lb)))
+        check_tree(("not", ("or", ("not", la), lb)))
+    triples = [tuple(rnd.choice(ls) for _ in range(3)) for _ in range(3000)]
+    for a, b, c in triples:
+        la, lb, lc = ("leaf", a), ("leaf", b), ("leaf", c)
+        check_tree(("or", ("and", la, lb), lc))
+        check_tree(("and", ("or", la, ("not", lb)), ("not", lc)))
+        check_tree(("leaf", f"{a},{b},{c}"))
 
 
-# ---------------------------------------------------------------- S3 exhaustive triples
-def stream3(limit):
-    vers = ["1", "1.0", "1.1", "2", "1!1", "1.0.0"]
-    ls = [op + v for v in vers for op in (">", ">=", "<", "<=", "==", "!=")]
-    ls += ["~=1.0", "~=1.1", "~=1.0.0", "~=1!1.0", "==1.*", "!=1.*", "==1.0.*", "!=1.0.*", "==1!1.*"]
-    cands = ["0.9", "1", "1.0.1", "1.0.99", "1.1", "1.1.1", "1.9", "2", "2.0.1", "3",
-             "1!0.9", "1!1", "1!1.0.1", "1!1.5", "1!2"]
-    shapes = []
-    for o1, o2 in itertools.product(("and", "or"), repeat=2):
-        shapes.append(lambda a, b, c, o1=o1, o2=o2: (o2, (o1, a, b), c))
-        shapes.append(lambda a, b, c, o1=o1, o2=o2: (o1, a, (o2, b, c)))
-        shapes.append(lambda a, b, c, o1=o1, o2=o2: (o2, ("not", (o1, a, b)), c))
-    triples = list(itertools.product(ls, repeat=3))
-    random.Random(9).shuffle(triples)
-    for a, b, c in triples[:limit]:
-        A, B, C = ("leaf", a), ("leaf", b), ("leaf", c)
-        for sh in shapes:
-            check_tree(sh(A, B, C), cands)
+# ---------------------------------------------------------------- 2. other entry points / types
+def entry_points() -> None:
+    global CASES
+    V = Version
+    finals = ["0", "0.9", "1", "1.0.0", "1.5", "2", "2.0.1", "3", "10"]
+
+    def same(label, r, pred):
+        global CASES
+        CASES += 1
+        for v in finals:
+            try:
+                got = v in r
+            except Exception as e:  # noqa: BLE001
+                NEW.append(f"{label}: {v} in {r!r} raised {type(e).__name__}: {e}")
+                return
+            if got != pred(v) or r.contains(V(v)) != pred(v):
+                NEW.append(f"{label}: {v}: library {got} on {r!r}, expected {pred(v)}")
+
+    P = lambda s: (lambda v: SpecifierSet(s).contains(v))  # noqa: E731
+    # `||` syntax, blanks, the empty word, duplicates
+    same("'>=1 || <0.9'", parse_version_specifier(">=1 || <0.9"), lambda v: P(">=1")(v) or P("<0.9")(v))
+    same("'<empty>||==1.*'", parse_version_specifier("<empty>||==1.*"), P("==1.*"))
+    same("'>=2||'", parse_version_specifier(">=2||"), lambda v: True)
+    same("'!=1.*||!=2.*'", parse_version_specifier("!=1.*||!=2.*"), lambda v: True)
+    same("'==1.*||==2.*||>=3'", parse_version_specifier("==1.*||==2.*||>=3"), P(">=1"))
+    same("' >=1 , <2 '", parse_version_specifier(" >=1 , <2 "), P(">=1,<2"))
+    same("'>=1,>=1,<2,<2'", parse_version_specifier(">=1,>=1,<2,<2"), P(">=1,<2"))
+    # SpecifierSet objects with a prereleases setting
+    for flag in (None, True, False):
+        same(f"from_specifierset(prereleases={flag})", from_specifierset(SpecifierSet(">=1.0a1,<2", prereleases=flag)), P(">=1.0a1,<2"))
+    # objects built through the constructors
+    r = RangeSpecifier(min=V("1.0"), max=V("2"), include_min=True)
+    same("RangeSpecifier[1.0,2)", r, P(">=1.0,<2"))
+    same("~RangeSpecifier[1.0,2)", ~r, lambda v: not P(">=1.0,<2")(v))
+    same("RangeSpecifier()", RangeSpecifier(), lambda v: True)
+    same("~RangeSpecifier()", ~RangeSpecifier(), lambda v: False)
+    same("~~RangeSpecifier()", ~~RangeSpecifier(), lambda v: True)
+    u = UnionSpecifier((RangeSpecifier(max=V("1")), RangeSpecifier(min=V("2"), include_min=True)))
+    same("UnionSpecifier(<1, >=2)", u, lambda v: P("<1")(v) or P(">=2")(v))
+    same("~UnionSpecifier(<1, >=2)", ~u, P(">=1,<2"))
+    # Any / Empty across classes, both operand orders (the reflected dunders)
+    any_, empty = AnySpecifier(), EmptySpecifier()
+    for name, x, px in (("range", r, P(">=1.0,<2")), ("union", u, lambda v: P("<1")(v) or P(">=2")(v))):
+        same(f"Any & {name}", any_ & x, px)
+        same(f"{name} & Any", x & any_, px)
+        same(f"Any | {name}", any_ | x, lambda v: True)
+        same(f"{name} | Any", x | any_, lambda v: True)
+        same(f"Empty & {name}", empty & x, lambda v: False)
+        same(f"{name} & Empty", x & empty, lambda v: False)
+        same(f"Empty | {name}", empty | x, px)
+        same(f"{name} | Empty", x | empty, px)
+        same(f"{name} & RangeSpecifier()", x & RangeSpecifier(), px)
+        same(f"RangeSpecifier() & {name}", RangeSpecifier() & x, px)
+        same(f"{name} | RangeSpecifier()", x | RangeSpecifier(), lambda v: True)
+        same(f"RangeSpecifier() | {name}", RangeSpecifier() | x, lambda v: True)
+        same(f"{name} | ~{name}", x | ~x, lambda v: True)
+        same(f"~{name} | {name}", ~x | x, lambda v: True)
+        same(f"{name} & ~{name}", x & ~x, lambda v: False)
+        same(f"~({name} | ~{name})", ~(x | ~x), lambda v: False)
+    same("range & union", r & u, lambda v: False)
+    same("union & range", u & r, lambda v: False)
+    same("range | union", r | u, lambda v: True)
+    same("union | range", u | r, lambda v: True)
+    same("~Any | range", ~any_ | r, P(">=1.0,<2"))
+    same("~Empty & union", ~empty & u, lambda v: P("<1")(v) or P(">=2")(v))
+    # sequences of operations on the same objects (cached renderings must not leak)
+    a, b = parse_version_specifier(">=1.0"), parse_version_specifier("<2")
+    str(a), str(b), str(a & b), str(~(a & b))
+    same("(>=1.0 & <2) after rendering", a & b, P(">=1.0,<2"))
+    same("~(>=1.0 & <2) after rendering", ~(a & b), lambda v: not P(">=1.0,<2")(v))
+    # hashing / equality do not change what is contained
+    s = {a & b, r, parse_version_specifier("==1.*"), parse_version_specifier("~=1.0")}
+    for x in s:
+        same(f"set member {x!r}", x, P(">=1.0,<2"))
+    # large segments, many segments
+    big = "9" * 40
+    same("big", parse_version_specifier(f">={big}") | parse_version_specifier(f"<{big}"), lambda v: True)
+    same("~=1.2.3.4.5.6", ~parse_version_specifier("~=1.2.3.4.5.6") & parse_version_specifier("==1.*"), lambda v: P("==1.*")(v) and not P("~=1.2.3.4.5.6")(v))
 
 
-def main():
-    mode = sys.argv[1] if len(sys.argv) > 1 else "quick"
-    k = 1 if mode == "quick" else 10
-    stream1(3000 * k)
-    print("S1 done", CHECKS)
-    stream2(1500 * k)
-    print("S2 done", CHECKS)
-    stream3(1500 * k)
-    print("S3 done", CHECKS)
-    stream1(1500 * k, seed=99, roundtrip=True)
-    print("S4 done", CHECKS)
-    print(f"membership checks: {CHECKS}; new violations: {len(FOUND)}")
-    if not FOUND:
-        print("no NEW violation of C04 found on the unmodified tree")
+# ---------------------------------------------------------------- 3. random trees, rich leaf grammar
+def random_trees(n: int, seed: int) -> None:
+    R = random.Random(seed)
+
+    def suffix():
+        if R.random() < 0.6:
+            return ""
+        kind = R.choice(["a", "b", "rc", "c", "alpha", "pre", "preview", ".post", "post", "-", "rev", ".r", ".dev", "dev", "_post", "rc.dev", ".post.dev"])
+        k = R.choice([0, 1, 2])
+        if kind == "-":
+            return f"-{k}"
+        if kind == "rc.dev":
+            return f"rc{k}.dev1"
+        if kind == ".post.dev":
+            return f".post{k}.dev1"
+        return f"{kind.upper() if R.random() < 0.2 else kind}{k}"
+
+    def rel(lo, hi):
+        return ".".join(str(R.choice([0, 0, 1, 1, 2, 3, 9, 10])) for _ in range(R.randint(lo, hi)))
+
+    def leaf():
+        op = R.choice([">", ">=", "<", "<=", "==", "!=", "~=", "==*", "!=*"])
+        if op.endswith("*"):
+            return f"{op[:2]}{rel(1, 3)}.*"
+        if op == "~=":
+            return f"~={rel(2, 5)}{suffix()}"
+        return f"{op}{R.choice(['', '', '', 'v', ' '])}{rel(1, 4)}{suffix()}"
+
+    def tree(d):
+        if d == 0 or R.random() < 0.25:
+            return ("leaf", ",".join(leaf() for _ in range(R.choice([1, 1, 2, 3]))))
+        k = R.choice(["and", "or", "not", "and", "or"])
+        if k == "not":
+            return ("not", tree(d - 1))
+        return (k, tree(d - 1), tree(d - 1))
+
+    for _ in range(n):
+        check_tree(tree(R.choice([1, 2, 3, 4])))
 
 
 if __name__ == "__main__":
-    main()
+    n = int(sys.argv[1]) if len(sys.argv) > 1 else 3000
+    systematic()
+    entry_points()
+    random_trees(n, 2026)
+    print(f"expressions checked: {CASES}; membership comparisons: {CHECKS}")
+    print(f"disagreements belonging to known family (3) (exclusive post-release upper bound): {KNOWN}")
+    if NEW:
+        print(f"NEW violations: {len(NEW)}")
+        for line in NEW[:40]:
+            print("  " + line)
+    else:
+        print("NEW violations: none")
